@@ -46,8 +46,10 @@ Definition rec_id (es : list ent) (g : N) : bool := existsb (fun e => (eid e =? 
 
 (* what memberof computes when it recomputes DirectMemberOf of y: live groups listing y as member
    (exact for flat group populations; nested groups would also need the transitive MemberOf) *)
-Definition dmo (es : list ent) (y : N) : list N :=
-  map eid (filter (fun g => is_live (est g) && memN y (emember g)) es).
+(* g is a live GROUP listing y as a member (memberof searches class=group AND member=y) *)
+Definition lists (g : ent) (y : N) : bool :=
+  is_live (est g) && (ekind g =? 1) && memN y (emember g).
+Definition dmo (es : list ent) (y : N) : list N := map eid (filter (fun g => lists g y) es).
 
 (* sorted duplicate-free insertion (reference sets are BTreeSets) *)
 Fixpoint ins (x : N) (l : list N) : list N :=
@@ -120,9 +122,10 @@ Definition add_members (es : list ent) (x t : N) (e : ent) : ent :=
 
 (* error codes: 1 NoMatchingEntries, 2 SchemaViolation (ClientCertificate must have Refers),
    3 Plugin(ReferentialIntegrity) (restored Refers target not live), 5 stashed group not live
-   (internal_modify would not find a live group; unreachable from well-formed states, see
-   Proofs.rdmo_live) *)
-Definition do_revive (es : list ent) (x t : N) : list ent + N :=
+   (internal_modify would not find a live group; unreachable on the runs).
+   [fixed] selects the tree: true = /repo after commit 76a0ae1 ("reviving a group must restore the
+   memberships of its members"), false = the tree before it (kept only for C26_prefix_refuted). *)
+Definition do_revive_gen (fixed : bool) (es : list ent) (x t : N) : list ent + N :=
   if negb (rec_id es x) then inr 1
   else if negb (forallb (fun e => implb (in_revs x e && edep e) (is_some (refers' e))) es) then inr 2
   else
@@ -131,16 +134,22 @@ Definition do_revive (es : list ent) (x t : N) : list ent + N :=
                          (match ecasc e with Some u => live_id es1 u | None => true end)) es) then inr 3
     else if negb (forallb (fun e => implb (in_revs x e) (forallb (live_id es1) (erdmo e))) es) then inr 5
     else
-      (* memberof::post_modify: only the revived entries themselves (and, for each stashed group,
-         the group and the re-added member) are recomputed; the MEMBERS of a revived group are
-         not, because its Member set did not change *)
       let es2 := map (add_members es x t) es1 in
+      (* memberof::post_modify_inner: affected = the revived entries, for each stashed group the
+         group and the re-added member, and (since 76a0ae1) ALL members of a revived group: a
+         group leaving the recycle bin changes their memberships although its Member set did not
+         change.  Before the fix those members were not recomputed. *)
+      let gmembers := if fixed
+                      then flat_map emember (filter (fun e => in_revs x e && (ekind e =? 1)) es)
+                      else [] in
       (* a revived PERSON's stash also names the built-in dynamic groups idm_all_persons /
          idm_all_accounts (not tracked here); re-adding it there makes dyngroup re-evaluate the
          group and memberof recompute every live person *)
       let persons := if existsb (fun e => in_revs x e && (ekind e =? 0)) es
                      then map eid (filter (fun e => ekind e =? 0) es) else [] in
-      inl (map (recompute es2 (map eid (filter (in_revs x) es) ++ persons)) es2).
+      inl (map (recompute es2 (map eid (filter (in_revs x) es) ++ persons ++ gmembers)) es2).
+Definition do_revive := do_revive_gen true.
+Definition do_revive_prefix := do_revive_gen false.
 
 (* ------------------------------------------------------------------ purges *)
 Definition set_tomb (t : N) (e : ent) : ent :=
@@ -163,7 +172,7 @@ Definition eff (s : state) (t : N) : N := if now s <? t then t else now s + 1.
 
 (* result code 0 = committed; any other code = the transaction was dropped (nothing changes);
    4 = InvalidReplChangeId from Cid::sub_secs *)
-Definition step (R C : N) (s : state) (o : op) (t0 : N) : state * N :=
+Definition step_gen (fixed : bool) (R C : N) (s : state) (o : op) (t0 : N) : state * N :=
   let t := eff s t0 in
   if t <? C then (s, 4) else
   match o with
@@ -171,25 +180,33 @@ Definition step (R C : N) (s : state) (o : op) (t0 : N) : state * N :=
                  | Some es => (mkst t es, 0)
                  | None => (s, 1)
                  end
-  | ORevive x => match do_revive (ents s) x t with
+  | ORevive x => match do_revive_gen fixed (ents s) x t with
                  | inl es => (mkst t es, 0)
                  | inr c => (s, c)
                  end
   | OPurgeRec => if t <? R then (s, 4) else (mkst t (map (purge_rec_upd R t) (ents s)), 0)
   | OPurgeTomb => (mkst t (map (purge_tomb_upd C t) (ents s)), 0)
   end.
+Definition step := step_gen true.
+(* the tree before 76a0ae1 — only for C26_prefix_refuted *)
+Definition step_prefix := step_gen false.
 
 Fixpoint run (R C : N) (s : state) (l : list (op * N)) : state :=
   match l with
   | [] => s
   | (o, t) :: r => run R C (fst (step R C s o t)) r
   end.
+Fixpoint run_prefix (R C : N) (s : state) (l : list (op * N)) : state :=
+  match l with
+  | [] => s
+  | (o, t) :: r => run_prefix R C (fst (step_prefix R C s o t)) r
+  end.
 
 (* ------------------------------------------------------------------ the stash of a delete *)
 (* stored DirectMemberOf names every live group that lists the (live) entry as a member *)
 Definition dmo_consb (es : list ent) : bool :=
   forallb (fun e => implb (is_live (est e))
-     (forallb (fun g => implb (is_live (est g) && memN (eid e) (emember g)) (memN (eid g) (edmo e))) es)) es.
+     (forallb (fun g => implb (lists g (eid e)) (memN (eid g) (edmo e))) es)) es.
 (* the RecycledDirectMemberOf stash of every entry recycled by pre -> post names every group that was
    live and listed it as a member, unless that group is itself no longer live afterwards *)
 Fixpoint stash_walk (pre post es es' : list ent) : bool :=
@@ -197,7 +214,7 @@ Fixpoint stash_walk (pre post es es' : list ent) : bool :=
   | [], [] => true
   | e :: r, e' :: r' =>
       implb (is_live (est e) && is_rec (est e'))
-        (forallb (fun g => implb (is_live (est g) && memN (eid e) (emember g))
+        (forallb (fun g => implb (lists g (eid e))
                                  (memN (eid g) (erdmo e') || negb (live_id post (eid g)))) pre)
       && stash_walk pre post r r'
   | _, _ => false
@@ -267,7 +284,8 @@ Fixpoint oents_eqb (a b : list oent) : bool :=
    a recycled entry was last modified no later than the published cid_max *)
 Definition wfb (s : state) : bool :=
   nodupb (map eid (ents s))
-  && forallb (fun e => implb (is_rec (est e)) (elm e <=? now s)) (ents s).
+  && forallb (fun e => implb (is_rec (est e)) (elm e <=? now s)) (ents s)
+  && dmo_consb (ents s).
 
 Fixpoint run_agree (R C : N) (s : state) (steps : list ostep) : bool :=
   match steps with
@@ -370,7 +388,7 @@ Definition pcore (c : case) : bool :=
    (judged on the groups' own Member lists, not on the entry's stored DirectMemberOf) *)
 Definition stash_strict (pre post : list oent) (a b : oent) : bool :=
   implb (is_live (ost a) && is_rec (ost b))
-    (forallb (fun g => implb (is_live (ost g) && memN (oid a) (omember g))
+    (forallb (fun g => implb (is_live (ost g) && (okind g =? 1) && memN (oid a) (omember g))
                              (memN (oid g) (ordmo b) || negb (olive post (oid g)))) pre).
 Fixpoint trace_strict (pre : list oent) (steps : list ostep) : bool :=
   match steps with
@@ -385,19 +403,6 @@ Fixpoint trace_strict (pre : list oent) (steps : list ostep) : bool :=
 Definition pcheck (c : case) : bool :=
   pcore c && match c with CHist _ _ _ init steps => trace_strict init steps end.
 
-(* Known-finding class (see Props.C26_refuted): the history contains a committed revive of a
-   GROUP that has members.  memberof does not recompute DirectMemberOf of those members, so a
-   later delete of such a member stashes an incomplete RecycledDirectMemberOf and its revive does
-   not put it back into the group.  Everything else (pcore) must still hold. *)
-Fixpoint has_group_revive (pre : list oent) (steps : list ostep) : bool :=
-  match steps with
-  | [] => false
-  | OStep o _ _ code post :: r =>
-      (match o with
-       | ORevive x => (code =? 0) && existsb (fun e => (oid e =? x) && (okind e =? 1)
-                                                       && negb (listN_eqb (omember e) [])) pre
-       | _ => false
-       end) || has_group_revive post r
-  end.
-Definition known (c : case) : bool :=
-  pcore c && match c with CHist _ _ _ init steps => has_group_revive init steps end.
+(* No known-finding class: the defect found by this check (C26_prefix_refuted) was repaired by
+   commit 76a0ae1 in /repo. *)
+Definition known (_ : case) : bool := false.
